@@ -156,6 +156,10 @@ type ProgGen struct {
 	stmts    int
 	MaxStmts int
 	hdr      int // > 0 while emitting a statement header
+	FaultAt  int    // statement ordinal (1-based, counted over the whole program) replaced by Fault; 0 = none
+	Fault    string // deliberately ill-typed statement
+	total    int
+	Injected bool
 }
 
 type pfunc struct {
@@ -297,7 +301,7 @@ func (g *ProgGen) lit(ty Ty) string {
 	case TU8:
 		return g.pickS([]string{"0", "1", "255", "'a'", "0x7f"})
 	case TRune:
-		return g.pickS([]string{"'a'", "'\\n'", "'世'", "65"})
+		return g.pickS([]string{"'a'", "'\\n'", "'世'", "'A'"})
 	case TF64:
 		return g.pickS([]string{"0.5", "1.0", "2", "KF", "1e3", "3.25", "-0.125"})
 	case TC128:
@@ -487,6 +491,12 @@ func (g *ProgGen) exprDepth() int { return g.R.Intn(3) }
 // Stmt emits one random statement.
 func (g *ProgGen) Stmt() {
 	g.stmts++
+	g.total++
+	if g.FaultAt > 0 && g.total == g.FaultAt {
+		g.w("%s", g.Fault)
+		g.Injected = true
+		return
+	}
 	deep := g.depth < g.MaxDepth && g.stmts < g.MaxStmts
 	k := g.R.Intn(34)
 	if !deep && k >= 14 && k <= 25 {
@@ -1034,9 +1044,51 @@ func (g *ProgGen) Func(name string, method bool) {
 	}
 }
 
+// Faults are single statements Go rejects, built from package-level names only so that they can be placed anywhere.
+// Only fault kinds that the atom layer shows to be reliably rejected are listed (layering rule); the others
+// (unchecked index/slice operand types, conversions, constant representability ...) are decided at the atom layer.
+var Faults = []string{
+	"gInt = gStr", "gStr = gInt", "gInt = gF64", "gSlice = gMap", "gSt.A = gStr", "gSt.Nope = 1", "gSt.Nope()", "gInt.A = 1", "_ = gInt.Foo",
+	"gMap[\"a\"] = \"b\"", "two(1)", "_ = vari(\"a\")", "_ = apply(gInt, 1)", "_ = upper(1)", "_ = upper()", "_ = upper(\"a\", \"b\")",
+	"var q int = gStr; _ = q", "var q MyStruct = gInt; _ = q", "q := two(); _ = q", "a, b, c := two(); _, _, _ = a, b, c", "gInt, gStr = two()",
+	"if gInt {}", "for gStr {}", "switch gInt { case \"a\": }", "switch gStr { case 1: }", "_ = gInt + gF64", "_ = gStr * gStr", "_ = -gStr", "_ = !gInt", "_ = gSt + gSt",
+	"_ = *gInt", "_ = gInt.(int)", "_ = <-gInt", "_ = len(gInt)", "_ = append(gInt, 1)", "_ = append(gSlice, gStr)",
+	"_ = MyStruct{A: gStr}", "_ = MyStruct{1, gStr, nil, 4}", "_ = []int{gStr}", "_ = map[string]int{gInt: 1}", "var s Stringer = gSt; _ = s",
+	"_ = gmax(gInt, gStr)", "gSt.SetA(gStr)", "gStr++", "_ = gInt && gInt", "_ = gStr < gInt", "gInt += gStr", "gStr -= gStr", "_ = gSt.Sum(1)", "_ = gOuter.Ident(gStr)",
+	"var e error = gInt; _ = e", "_ = func() int { return gStr }", "_ = func() (int, string) { return gInt }", "fn := func(x int) {}; fn(gStr)",
+}
+
+// ProgramWithFault generates the same program as Program but replaces one statement (chosen by r) with an ill-typed one.
+func ProgramWithFault(r *h.Rand, nfuncs, maxDepth, maxStmts int, fr *h.Rand) (src, fault string) {
+	// first pass: count statements
+	g0 := newProgGen(r.Clone(), maxDepth, maxStmts)
+	g0.run(nfuncs)
+	if g0.total == 0 {
+		return g0.sb.String(), ""
+	}
+	g := newProgGen(r, maxDepth, maxStmts)
+	g.FaultAt = 1 + fr.Intn(g0.total)
+	g.Fault = h.Pick(fr, Faults)
+	g.run(nfuncs)
+	if !g.Injected {
+		return g.sb.String(), ""
+	}
+	return g.sb.String(), g.Fault
+}
+
+func newProgGen(r *h.Rand, maxDepth, maxStmts int) *ProgGen {
+	return &ProgGen{R: r, MaxDepth: maxDepth, MaxStmts: maxStmts}
+}
+
 // Program returns a complete generated program.
 func Program(r *h.Rand, nfuncs, maxDepth, maxStmts int) string {
-	g := &ProgGen{R: r, MaxDepth: maxDepth, MaxStmts: maxStmts}
+	g := newProgGen(r, maxDepth, maxStmts)
+	g.run(nfuncs)
+	return g.sb.String()
+}
+
+func (g *ProgGen) run(nfuncs int) {
+	r := g.R
 	g.sb.WriteString(ProgPrelude)
 	g.sb.WriteString("\n")
 	for i := 0; i < nfuncs; i++ {
@@ -1058,5 +1110,4 @@ func Program(r *h.Rand, nfuncs, maxDepth, maxStmts int) string {
 	}
 	g.pop()
 	g.sb.WriteString("}\n")
-	return g.sb.String()
 }
